@@ -7,212 +7,25 @@
 package main
 
 import (
-	"bytes"
 	"encoding/json"
 	"fmt"
 	"os"
 	"time"
 
+	"anndbverif/idxbfs"
 	"anndbverif/idxlib"
 	"anndbverif/lib/ev"
 	"anndbverif/seq"
 	"anndbverif/vrt"
 	"anndbverif/world"
-
-	"github.com/marekgalovic/anndb/index"
-	uuid "github.com/satori/go.uuid"
 )
 
-type op struct {
-	Kind  string `json:"op"` // ins rem upd saveload
-	ID    int    `json:"id"`
-	Vec   int    `json:"vec,omitempty"`
-	Level int    `json:"level,omitempty"`
-	Meta  int    `json:"meta,omitempty"` // 0 nil, 1 {k:v1}, 2 {k:v2}
-	Used  bool   `json:"used,omitempty"` // saveload: load into an index that already holds other items
-}
+type op = idxbfs.Op
+type config = idxbfs.Config
+type wld = idxbfs.World
 
-func (o op) String() string {
-	n := string(rune('a' + o.ID))
-	switch o.Kind {
-	case "ins":
-		return fmt.Sprintf("I %s%v@%d m%d", n, idxlib.Grid[o.Vec], o.Level, o.Meta)
-	case "rem":
-		return "R " + n
-	case "upd":
-		return fmt.Sprintf("U %s%v m%d", n, idxlib.Grid[o.Vec], o.Meta)
-	}
-	if o.Used {
-		return "saveload-into-used"
-	}
-	return "saveload"
-}
-
-type config struct {
-	Space      string `json:"space"`
-	M, Ef, EfC int
-	Heuristic  bool
-	Extend     bool
-	KeepPruned bool
-	Policy     int `json:"map_policy"`
-}
-
-func (c config) options() []index.HnswOption {
-	o := []index.HnswOption{index.HnswM(c.M), index.HnswEf(c.Ef), index.HnswEfConstruction(c.EfC)}
-	if c.Heuristic {
-		o = append(o, index.HnswSearchAlgorithm(index.HnswSearchHeuristic), index.HnswHeuristicExtendCandidates(c.Extend), index.HnswHeuristicKeepPruned(c.KeepPruned))
-	}
-	return o
-}
-
-type wld struct {
-	cfg config
-	ix  *index.Hnsw
-	ref idxlib.Ref
-}
-
-func meta(i int) index.Metadata {
-	switch i {
-	case 1:
-		return index.Metadata{"k": "v1"}
-	case 2:
-		return index.Metadata{"k": "v2", "j": "w"}
-	}
-	return nil
-}
-
-// vectors each id may take: collisions between ids on purpose (ties)
-var vecsOf = [][]int{{0, 4}, {1, 4}, {2, 3}, {3, 5}}
-
-func (w *wld) apply(o op) (key, desc string) {
-	defer func() {
-		if r := recover(); r != nil {
-			key, desc = "panic", fmt.Sprintf("%v panicked: %v", o, r)
-		}
-	}()
-	id := idxlib.IDs[o.ID]
-	switch o.Kind {
-	case "ins":
-		m := meta(o.Meta)
-		err := w.ix.Insert(id, append([]float32{}, idxlib.Grid[o.Vec]...), m, o.Level)
-		if _, exists := w.ref[id]; exists {
-			if err != index.ItemAlreadyExistsError {
-				return "insert-existing-not-rejected", fmt.Sprintf("%v on a stored id returned %v", o, err)
-			}
-		} else {
-			if err != nil {
-				return "insert-error", fmt.Sprintf("%v returned %v", o, err)
-			}
-			w.ref[id] = &idxlib.Item{Vec: idxlib.Grid[o.Vec], Meta: m, Level: o.Level}
-		}
-	case "rem":
-		err := w.ix.Remove(id)
-		if _, exists := w.ref[id]; exists {
-			if err != nil {
-				return "remove-error", fmt.Sprintf("%v returned %v", o, err)
-			}
-			delete(w.ref, id)
-		} else if err != index.ItemNotFoundError {
-			return "remove-absent-not-rejected", fmt.Sprintf("%v on an absent id returned %v", o, err)
-		}
-	case "upd":
-		// exactly what partition.updateValue does, through the public API
-		vertex, err := w.ix.GetVertex(id)
-		if err != nil {
-			if _, exists := w.ref[id]; exists {
-				return "update-lookup-error", fmt.Sprintf("%v: %v", o, err)
-			}
-			return "", ""
-		}
-		if err := w.ix.Remove(id); err != nil {
-			return "update-remove-error", fmt.Sprintf("%v: %v", o, err)
-		}
-		m := meta(o.Meta)
-		if m == nil {
-			m = index.Metadata{}
-		}
-		for k, v := range vertex.Metadata() {
-			if _, exists := m[k]; !exists {
-				m[k] = v
-			}
-		}
-		if err := w.ix.Insert(id, append([]float32{}, idxlib.Grid[o.Vec]...), m, vertex.Level()); err != nil {
-			return "update-insert-error", fmt.Sprintf("%v: %v", o, err)
-		}
-		w.ref[id] = &idxlib.Item{Vec: idxlib.Grid[o.Vec], Meta: m, Level: w.ref[id].Level}
-	case "saveload":
-		var buf bytes.Buffer
-		if err := w.ix.Save(&buf, false); err != nil {
-			return "save-error", fmt.Sprintf("Save: %v", err)
-		}
-		nx := index.NewHnsw(2, idxlib.Space(w.cfg.Space), w.cfg.options()...)
-		if o.Used {
-			// a lagging replica: holds different items (other vectors, one extra id, one stale id)
-			nx.Insert(idxlib.IDs[0], []float32{4, 1}, index.Metadata{"k": "old"}, 1)
-			nx.Insert(idxlib.IDs[1], []float32{3, 3}, nil, 0)
-			nx.Insert(idxlib.IDs[4], []float32{2, 2}, nil, 0)
-			nx.Remove(idxlib.IDs[1])
-		}
-		if err := nx.Load(bytes.NewReader(buf.Bytes()), false); err != nil {
-			if len(w.ref) == 0 {
-				return "load-empty-snapshot-fails", fmt.Sprintf("Load of the %d bytes Save wrote for an empty index: %v", buf.Len(), err)
-			}
-			return "load-error", fmt.Sprintf("Load of own Save output: %v", err)
-		}
-		w.ix = nx
-	}
-	return w.check(o)
-}
-
-var ks = []uint{0, 1, 2, 5}
-
-func (w *wld) check(after op) (string, string) {
-	if k, d := idxlib.CheckContents(w.ix, w.ref, idxlib.IDs[:5]); k != "" {
-		return "contents-" + k, fmt.Sprintf("after %v: %s", after, d)
-	}
-	if k, d := idxlib.CheckSearch(w.ix, w.ref, idxlib.Space(w.cfg.Space), idxlib.Queries, ks); k != "" {
-		return k + ":" + idxlib.Cause(w.ix.VerifDump()), fmt.Sprintf("after %v: %s", after, d)
-	}
-	return "", ""
-}
-
-func build(cfg config, path []op) (*wld, string, string) {
-	w := &wld{cfg: cfg, ix: index.NewHnsw(2, idxlib.Space(cfg.Space), cfg.options()...), ref: idxlib.Ref{}}
-	for _, o := range path {
-		if k, d := w.apply(o); k != "" {
-			return w, k, d
-		}
-	}
-	return w, "", ""
-}
-
-func enabled(w *wld) []op {
-	var out []op
-	for id := 0; id < 4; id++ {
-		if _, live := w.ref[idxlib.IDs[id]]; live {
-			out = append(out, op{Kind: "rem", ID: id})
-			for _, v := range vecsOf[id] {
-				out = append(out, op{Kind: "upd", ID: id, Vec: v})
-			}
-			if id == 0 {
-				out = append(out, op{Kind: "upd", ID: id, Vec: vecsOf[id][0], Meta: 2})
-			}
-		} else {
-			for _, v := range vecsOf[id] {
-				for lvl := 0; lvl <= 1; lvl++ {
-					out = append(out, op{Kind: "ins", ID: id, Vec: v, Level: lvl})
-				}
-			}
-			if id == 0 {
-				out = append(out, op{Kind: "ins", ID: id, Vec: vecsOf[id][0], Level: 2, Meta: 1})
-			}
-		}
-	}
-	// error paths (no state change): one representative each
-	out = append(out, op{Kind: "saveload"})
-	out = append(out, op{Kind: "saveload", Used: true})
-	return out
-}
+var build = idxbfs.Build
+var enabled = idxbfs.Enabled
 
 func main() {
 	world.Quiet()
@@ -261,7 +74,7 @@ func main() {
 				Depth: depth, Workers: 16, Deadline: deadline,
 				Build:   func(wi int, path []op) (*wld, string, string) { return build(c, path) },
 				Enabled: enabled,
-				Canon:   func(w *wld) string { return idxlib.DumpKey(w.ix.VerifDump()) },
+				Canon:   func(w *wld) string { return idxlib.DumpKey(w.Ix.VerifDump()) },
 				OnViolation: func(key, desc string, path []op) {
 					run.Violation(key, desc, map[string]interface{}{"config": c, "ops": path})
 				},
@@ -320,12 +133,10 @@ func replay(path string) {
 	}
 	vrt.InactiveMapPolicy = f.Replay.Config.Policy
 	w, k, d := build(f.Replay.Config, f.Replay.Ops)
-	fmt.Println(idxlib.DumpKey(w.ix.VerifDump()))
+	fmt.Println(idxlib.DumpKey(w.Ix.VerifDump()))
 	if k != "" {
 		fmt.Printf("VIOLATION property=C01 replay=%s\n  %s: %s\n", path, k, d)
 		os.Exit(1)
 	}
 	fmt.Println("replay: property held")
 }
-
-var _ = uuid.Nil
